@@ -202,7 +202,21 @@ def analyse(task):
                     model[dcl.name()] = float(Fraction(v.numerator_as_long(), v.denominator_as_long()))
                 except Exception:
                     pass
-        fails.append(dict(kind=kind, comp=i, mon=[list(x) for x in mon], result=r, diff=diff.show(3), nmon=len(diff), model=model))
+        rec = dict(kind=kind, comp=i, mon=[list(x) for x in mon], result=r, diff=diff.show(3), nmon=len(diff), model=model)
+        # the recorded known finding (grad-free Stratonovich Milstein) is ONE specific coefficient: the h^1.5 mean bias
+        # (1/4) D^2 g_i[g, g] of the finite-difference Milstein term.  Any other failing coefficient - or a different value of
+        # this one - gets a different signature and is reported as a violation.
+        if kind == 'mean' and st == 'stratonovich' and method == 'milstein' and opts.get('grad_free') and [list(x) for x in mon] == [['s', 3]]:
+            ynames = [f"y0_0_{k}" for k in range(d)]
+            if nt == 'diagonal':
+                expected = G[i][i].diff(ynames[i]).diff(ynames[i]) * G[i][i] * G[i][i]
+            else:
+                expected = Poly()
+                for k in range(d):
+                    for l in range(d):
+                        expected = expected + G[i][0].diff(ynames[k]).diff(ynames[l]) * G[k][0] * G[l][0]
+            rec['known_form'] = not (diff - expected.scale(Fraction(1, 4))) or not (diff + expected.scale(Fraction(1, 4)))
+        fails.append(rec)
     for i in range(d):
         ser = ctx.trunc(to_series(nodes[i], ctx, leaf, memo), K)
         nterms += len(ser)
@@ -298,6 +312,8 @@ def signature(res, f):
     st, method, nt, opts = res['config'][:4]
     gf = ',grad_free' if opts.get('grad_free') else ''
     mon = '*'.join(f"{v}^{e}" for v, e in f.get('mon', [])) or '1'
+    if f.get('known_form') is False:
+        mon += '|not-the-recorded-bias'
     return f"{st},{method},{nt}{gf}|{f['kind']}|{mon}"
 
 
@@ -324,6 +340,100 @@ def report(ctx, res, pid='C02'):
         sig = signature(res, f)
         ctx.violation(sig, f"coefficient of {f.get('mon')} in step - Taylor is {f.get('diff', '?')} (advertised strong order {res.get('p')})",
                       replay=dict(config=res['config'], p=res.get('p'), kind=f['kind'], mon=f.get('mon'), model=f['model']))
+
+
+class AliasSDE(torch.nn.Module):
+    """a user SDE whose methods hand back tensors that are still live: the drift returns its argument (f(t, y) = y) and the
+    diffusion returns a stored tensor (state-independent g, valid for every noise type).  alias=False computes the same
+    functions into fresh tensors."""
+
+    def __init__(self, mk, st, nt, d, m, alias):
+        super().__init__()
+        self.sde_type, self.noise_type, self.alias = st, nt, alias
+        shape = (1, d) if nt == 'diagonal' else (1, d, 1 if nt == 'scalar' else m)
+        self.G = mk('Gc', shape, values=0.2 + 0.1 * np.arange(int(np.prod(shape))).reshape(shape))
+
+    def f(self, t, y):
+        return y if self.alias else 1.0 * y
+
+    def g(self, t, y):
+        return self.G if self.alias else 1.0 * self.G
+
+
+def _alias_run(st, method, nt, opts, nograd, alias, symbolic, d=2, m=2):
+    from torchsde._core import methods, base_sde
+    import contextlib
+    mk = sdes.Maker(symbolic=symbolic, seed=3)
+    mm = d if nt == 'diagonal' else (1 if nt == 'scalar' else m)
+    sde = AliasSDE(mk, st, nt, d, mm, alias)
+    fsde = base_sde.ForwardSDE(sde)
+    h = 0.01
+    bm = sdes.StubBM(mk, 1, mm, levy=sdes.levy_for(method), h=h)
+    solver = methods.select(method, st)(sde=fsde, bm=bm, dt=h, adaptive=False, rtol=0, atol=0, dt_min=0, options=dict(opts))
+    t0 = mk('t0', (), values=0.3); hh = mk('h', (), values=h)
+    y0 = mk('y0', (1, d), values=(0.4 + 0.1 * np.arange(d)).reshape(1, d))
+    snap = lambda x: (list(x.sym.reshape(-1)) if isinstance(x, SymT) else x.detach().clone())
+    before = (snap(y0), snap(sde.G))
+    with (torch.no_grad() if nograd else contextlib.nullcontext()):
+        extra = solver.init_extra_solver_state(t0, y0)
+        y1, extra1 = solver.step(t0, t0 + hh, y0, extra)
+        keep1 = snap(y1)
+        y2, _ = solver.step(t0 + hh, t0 + hh + hh, y1, extra1)
+    after = (snap(y0), snap(sde.G))
+    return mk, before, after, keep1, snap(y2)
+
+
+def aliasing(task):
+    """step() must not write into tensors it did not create: the state it is given and whatever the user's drift/diffusion
+    return may be live elsewhere (f returning its argument, g returning a stored tensor).  Two consecutive steps of the
+    aliasing SDE equal those of the same SDE computed into fresh tensors, and y0 / the stored diffusion are untouched."""
+    st, method, nt, opts, nograd = task
+    from ..e1 import Z
+    mk, b_a, a_a, y1a, y2a = _alias_run(st, method, nt, opts, nograd, True, True)
+    _, _, _, y1f, y2f = _alias_run(st, method, nt, opts, nograd, False, True)
+    bad = []
+    for nm, x, y in (('y0', b_a[0], a_a[0]), ('stored diffusion', b_a[1], a_a[1])):
+        if any(p is not q for p, q in zip(x, y)):
+            bad.append((f'{nm} was modified in place by step()', 'structure', {}))
+    Zc = Z()
+    for nm, x, y in (('first step', y1a, y1f), ('second step', y2a, y2f)):
+        for k, (p, q) in enumerate(zip(x, y)):
+            r, model = Zc.equal(p, q)
+            if r != 'unsat':
+                bad.append((f'{nm}: component {k} differs between the aliasing SDE and the same SDE computed into fresh tensors', r, model)); break
+    return dict(task=list(task), bad=bad, queries=Zc.queries, solver_s=Zc.solver_s)
+
+
+def aliasing_obligations(ctx, only=None):
+    at = []
+    for st, method, nt, opts in accepted_configs():
+        if only and method not in only:
+            continue
+        at.append((st, method, nt, opts, False))
+        if nt in ('diagonal', 'additive'):
+            at.append((st, method, nt, opts, True))        # inference mode: torch.no_grad()
+    for t, (st_, res) in zip(at, pmap(aliasing, at)):
+        gf = ',grad_free' if t[3].get('grad_free') else ''
+        name = f"step does not write into live tensors {t[:3]}{gf}" + (' no_grad' if t[4] else '')
+        if st_ != 'ok':
+            ctx.inconc(name, str(res)[:600]); continue
+        ctx.paths += 1; ctx.queries += res['queries']; ctx.solver_s += res['solver_s']
+        if not res['bad']:
+            ctx.ok(name); continue
+        what, r, model = res['bad'][0]
+        if r == 'unknown':
+            ctx.inconc(name, 'solver unknown'); continue
+        ctx.violation(f"{t[0]},{t[1]},{t[2]}{gf}|aliasing" + ('|no_grad' if t[4] else ''), what, replay=dict(config=list(t), kind='aliasing', model=model, p=None, mon=None))
+
+
+def _replay_aliasing(task):
+    st, method, nt, opts, nograd = task
+    _, b_a, a_a, y1a, y2a = _alias_run(st, method, nt, opts, nograd, True, False)
+    _, _, _, y1f, y2f = _alias_run(st, method, nt, opts, nograd, False, False)
+    mut = max(float((x - y).abs().max()) for x, y in zip(b_a, a_a))
+    diff = max(float((y1a - y1f).abs().max()), float((y2a - y2f).abs().max()))
+    print(f'replay C02 aliasing: inputs changed by {mut}, two-step result differs from the fresh-tensor SDE by {diff}')
+    return mut > 0 or diff > 1e-12
 
 
 def purity_obligations(ctx):
@@ -366,6 +476,7 @@ def run(ctx):
         ctx.sample({'config': res['config'], 'p': res['p'], 'identities': res['queries']})
         report(ctx, res)
     purity_obligations(ctx)
+    aliasing_obligations(ctx)
     # exact textbook formulas
     ex = []
     for st, method, nt in [('ito', 'euler', 'diagonal'), ('ito', 'euler', 'scalar'), ('ito', 'euler', 'additive'), ('ito', 'euler', 'general'),
@@ -411,10 +522,14 @@ def _numeric_step(config, env, h, z, Hn):
 def replay(data):
     r = data['replay']
     config = r['config']
+    if r['kind'] == 'aliasing':
+        return _replay_aliasing(config)
     st, method, nt, opts, d, m, degt, degy = config
     env = dict(r.get('model') or {})
     if r['kind'] == 'exact':
         return _replay_exact(config, env)
+    if r['kind'] == 'aliasing':
+        return _replay_aliasing(config)
     if r['kind'] == 'purity':
         mk, used, fresh = _two_steps(st, method, nt, opts, d, m, degt, degy, False, env=dict(env))
         flat = lambda q: [q[0]] + list(q[1])
